@@ -176,4 +176,74 @@ def callTakesB (rs : Regions) (s : Signature) (args : List Arg) : Bool :=
     | a :: as => returnTakesB rs t a && allTakeB rs s.params as
     | [] => false
 
+
+/-! ### Which error kinds APPLY to a rejected argument
+
+The property fixes when resolution succeeds and what it yields; for an argument that is wrong in two ways it
+does not fix which of the two complaints is raised.  `slotErrs` / `returnErrs` list every error that applies;
+an implementation may report any member (the model reports the one the current code tests first). -/
+
+/-- every error applicable to argument `a` in parameter slot `p` (empty iff the argument fits) -/
+def slotErrs (rs : Regions) (p : ExtParam) : Arg → List ArgErr
+  | .immediate _ =>
+    (if p.mutable then [.immediateForMutable p.name] else []) ++
+    (if p.ty.isVector then [.invalidVectorArgument] else [])
+  | .memRef n _ =>
+    match p.ty with
+    | .scalar t =>
+      (match rs.get n with
+       | none => [.undeclared n]
+       | some v => if v.ty ≠ t then [.mismatchedScalar t v.ty] else [])
+    | _ => .invalidVectorArgument :: (match rs.get n with | none => [.undeclared n] | some _ => [])
+  | .identifier n =>
+    match rs.get n with
+    | none => [.undeclared n]
+    | some v =>
+      match p.ty with
+      | .scalar t => if v.ty ≠ t then [.mismatchedScalar t v.ty] else []
+      | .fixed e => if v ≠ e then [.mismatchedVector e v] else []
+      | .varlen t => if v.ty ≠ t then [.mismatchedScalar t v.ty] else []
+
+/-- every error applicable to the return argument -/
+def returnErrs (rs : Regions) (t : ScalarType) : Arg → List ArgErr
+  | .immediate _ => [.returnArgument]
+  | .memRef n _ =>
+    (match rs.get n with
+     | none => [.undeclared n]
+     | some v => if v.ty ≠ t then [.mismatchedScalar t v.ty] else [])
+  | .identifier n =>
+    (match rs.get n with
+     | none => [.undeclared n]
+     | some v => if v.ty ≠ t then [.mismatchedScalar t v.ty] else [])
+
+/-- the errors applicable at the slot a `CallArgErr` points to (`none`: no such slot) -/
+def errsAt (rs : Regions) (s : Signature) (args : List Arg) : CallArgErr → Option (List ArgErr)
+  | .ret _ =>
+    match s.ret, args.head? with
+    | some t, some a => some (returnErrs rs t a)
+    | _, _ => none
+  | .arg i _ =>
+    match s.params[i]?, args[i + (if s.ret.isSome then 1 else 0)]? with
+    | some p, some a => some (slotErrs rs p a)
+    | _, _ => none
+
+def CallArgErr.err : CallArgErr → ArgErr
+  | .ret e => e
+  | .arg _ e => e
+
+def CallArgErr.samePos : CallArgErr → CallArgErr → Bool
+  | .ret _, .ret _ => true
+  | .arg i _, .arg j _ => i == j
+  | _, _ => false
+
+/-- an implementation outcome is acceptable against the model's: successes, count errors and missing externs
+exactly; argument errors at the same slots, in the same order, each with an error that applies at its slot -/
+def outcomeAccepts (rs : Regions) (s : Signature) (args : List Arg) (model impl : Outcome) : Bool :=
+  match model, impl with
+  | .err (.arguments mes), .err (.arguments ies) =>
+    mes.length == ies.length &&
+    (mes.zip ies).all (fun (m, i) => m.samePos i &&
+      (match errsAt rs s args i with | some l => l.contains i.err | none => false))
+  | m, i => m == i
+
 end QV.C31
